@@ -36,13 +36,14 @@ HistOf(k, small, P, Q) ==
           : s \in UNION {Chains(k, small, n) : n \in 1..(P + Q)}}
 Histories(k) == UNION {HistOf(k, pl[1], pl[2], pl[3]) : pl \in Plan}
 \* small = every edit of the history is one of the representatives (the driver replays all of those)
-Tag(k, h) == LET SmallU == SmallEdits(k) IN
-             [pre |-> h.pre, post |-> h.post,
-              small |-> (\A i \in DOMAIN h.pre : h.pre[i] \in SmallU) /\ (\A i \in DOMAIN h.post : h.post[i].e \in SmallU)]
+Tag(SmallU, h) == [pre |-> h.pre, post |-> h.post,
+                   small |-> (\A i \in DOMAIN h.pre : h.pre[i] \in SmallU) /\ (\A i \in DOMAIN h.post : h.post[i].e \in SmallU)]
+SmallStd == SmallEdits("plain")
+SmallMa == SmallEdits("ma")
 HStd == Histories("plain")
 HMa == Histories("ma")
-ASSUME ndJsonSerialize(IOEnv.OUT_STD, SetToSeq({Tag("plain", h) : h \in HStd}))
-ASSUME ndJsonSerialize(IOEnv.OUT_MA, SetToSeq({Tag("ma", h) : h \in HMa}))
+ASSUME ndJsonSerialize(IOEnv.OUT_STD, SetToSeq({Tag(SmallStd, h) : h \in HStd}))
+ASSUME ndJsonSerialize(IOEnv.OUT_MA, SetToSeq({Tag(SmallMa, h) : h \in HMa}))
 ASSUME PrintT(<<"EMITTED", Cardinality(HStd), Cardinality(HMa)>>)
 VARIABLE dummy
 Init == dummy = 0
